@@ -156,14 +156,14 @@ def check_models(ctx: Ctx) -> Dict[str, Any]:
     if d1['ok'] or 'bad = "C12_HoldWindow"' not in d1['out']:
         raise Machinery('Listener/MC_Listener_nocancel_defect must reach bad = "C12_HoldWindow"')
     d2 = tlc.model_check('Listener', 'MC_Listener_nodedup_defect', workers=16, timeout=900, coverage=False)
-    if d2['ok'] or 'bad = "C12_TrainAssembly"' not in d2['out']:
-        raise Machinery('Listener/MC_Listener_nodedup_defect must reach bad = "C12_TrainAssembly"')
+    if d2['ok'] or 'bad = "C16_DuplicateEffect"' not in d2['out']:
+        raise Machinery('Listener/MC_Listener_nodedup_defect must reach bad = "C16_DuplicateEffect"')
     lv = tlc.model_check('Listener', 'MC_Listener_live', workers=16, timeout=900, coverage=False)
     if not lv['ok']:
         raise Machinery('Listener/MC_Listener_live: the liveness property Answered does not hold')
     return {'listener_model_states': r['states'], 'listener_model_distinct': r['distinct'], 'listener_model_depth': r['depth'],
             'listener_model_actions': r['actions'],
-            'listener_defect_configs_violate': {'MC_Listener_nocancel_defect': 'C12_HoldWindow', 'MC_Listener_nodedup_defect': 'C12_TrainAssembly'},
+            'listener_defect_configs_violate': {'MC_Listener_nocancel_defect': 'C12_HoldWindow', 'MC_Listener_nodedup_defect': 'C16_DuplicateEffect'},
             'listener_liveness': 'Answered (held => eventually answered) holds under WF(Next): %d states' % lv['distinct']}
 
 
